@@ -60,15 +60,36 @@ Proof.
         apply NoDup_app_r in Hd. inversion Hd as [|? ? Hx _]; subst. apply Hx. left. reflexivity. }
       rewrite update_nth_other in Hcn2 by exact Hne. rewrite E1 in Hcn2.
       rewrite (update_nth_same _ _ _ _ E2) in Hcn2. injection Hcn2 as <- <-.
-      inversion Hns as [| |? ? e nr r0 d0 H1 H2 H3 H4 H5 H6 H7 H8 H9]; subst.
+      inversion Hns as [| | |? ? e nr r0 d0 H1 H2 H3 H4 H5 H6 H7 H8 H9]; subst.
       assert (clsr = SPlain /\ r0 = r) as [-> ->] by (rewrite Hb in H6; injection H6; auto).
       eapply NS_implicit with (e := e) (r := r'); cbn; eauto.
     + destruct (nth_error (cs_nodes sc) k1) as [a|] eqn:E1; [|discriminate]. injection Hcn as <- <-.
       assert (a = ndr) by congruence. subst a.
       rewrite (update_nth_same _ _ _ _ E1) in Hcn2. injection Hcn2 as <- <-.
-      inversion Hns as [? ? e H1 H2|? ? cls0 r0 d0 H1 H2 H3 H4 H5|]; subst.
+      inversion Hns as [? ? e H1 H2|? ? cls0 r0 d0 H1 H2 H3 H4 H5|? ? rr0 dr0 H1 H2 H3 H4|]; subst.
       * rewrite Hb in H2. discriminate.
       * eapply NS_router with (cls := clsr) (r := r'); cbn; eauto.
+      * rewrite Hb in H2. discriminate.
+Qed.
+
+(* the same for the node of a split_random row *)
+Lemma Sim_rand_update phi sr sc k n c d d' ndr r r' next' cont' :
+  Sim phi sr sc -> nth_error (s_nodes sr) k = Some n -> rn_dec n = Some d -> nth_error phi k = Some c -> snd c = None ->
+  nth_error (cs_nodes sc) (fst c) = Some ndr -> cn_body ndr = BRandom r ->
+  rand_sim phi (cuu sc) d' r' ->
+  Sim phi (RowSem.set_node sr k (mkRNode (rn_actions n) (Some d') cont'))
+      (Compile.set_node sc (fst c) (with_body ndr (BRandom r')) next').
+Proof.
+  intros Hsim Hk Hdec Hc Ho Hr Hb Hds.
+  destruct (sim_nodes _ _ _ Hsim k n c Hk Hc) as (nd & o & Hcn & Hns).
+  eapply Sim_set; eauto.
+  - left. reflexivity.
+  - rewrite Hb. cbn. exact I.
+  - intros nd2 o2 Hcn2. unfold cluster_nodes in *. destruct c as [k1 [j|]]; cbn in *; [discriminate|].
+    rewrite Hr in Hcn. injection Hcn as <- <-.
+    rewrite (update_nth_same _ _ _ _ Hr) in Hcn2. injection Hcn2 as <- <-.
+    inversion Hns as [? ? e H1 H2|? ? cls0 r0 d0 H1 H2 H3 H4 H5|? ? rr0 dr0 H1 H2 H3 H4|]; subst; try (rewrite Hb in H2; discriminate).
+    eapply NS_random with (r := r'); cbn; eauto.
 Qed.
 
 (* ---------------------------------------------------------------- a fresh router against a fresh decision *)
@@ -109,7 +130,7 @@ Definition ref_add (cls : eclass) (d : rdec) (c : econd) (tgt : dest) : rdec :=
 (* what cond_ok says of the category name, for the two argument lists an edge may be compiled with *)
 Lemma cond_ok_names c : cond_ok c -> name_ok (c_cname c) (ref_args c) /\ name_ok (c_cname c) [None; Some (c_value c)].
 Proof.
-  intros (_ & _ & H). unfold name_ok. destruct (c_cname c) as [|a nm]; [|auto].
+  intros (_ & _ & H & _). unfold name_ok. destruct (c_cname c) as [|a nm]; [|auto].
   split; intros k; apply (H k).
 Qed.
 
@@ -140,6 +161,9 @@ Inductive exit_view (phi : list (nat * option nat)) (sc : cstate) (n : rnode) (c
     snd c0 = None -> nth_error (cs_nodes sc) (fst c0) = Some nd -> cn_body nd = BBasic e -> rn_dec n = None ->
     map snd (cn_actions nd) = rn_actions n -> dest_sim phi (cuu sc) (rn_cont n) (x_dest e) ->
     cls = EAction -> rt = RTOther -> exit_view phi sc n cls rt c0
+| EV_random nd r d0 :
+    snd c0 = None -> nth_error (cs_nodes sc) (fst c0) = Some nd -> cn_body nd = BRandom r -> rn_dec n = Some d0 ->
+    rand_sim phi (cuu sc) d0 r -> cls = ERandom -> rt = RTOther -> exit_view phi sc n cls rt c0
 | EV_router ndx clsr r d0 :
     nth_error (cs_nodes sc) (router_idx c0) = Some ndx -> cn_body ndx = BSwitch clsr r -> rn_dec n = Some d0 ->
     dec_sim phi (cuu sc) d0 r -> shape_ok clsr d0 ->
@@ -160,14 +184,15 @@ Proof.
   unfold cluster_nodes in Hcn. rewrite Hnd in Hcn. unfold cuu.
   destruct c0 as [a [j|]]; cbn in *.
   - destruct (nth_error (cs_nodes sc) j) as [nr|] eqn:Ej; [|discriminate]. injection Hcn as <- <-.
-    inversion Hns as [| |? ? e nr' r d0 H1 H2 H3 H4 H5 H6 H7 H8 H9]; subst.
+    inversion Hns as [| | |? ? e nr' r d0 H1 H2 H3 H4 H5 H6 H7 H8 H9]; subst.
     rewrite H2 in Hcl. destruct cls; cbn in Hcl; try contradiction. subst rt'.
     eapply EV_router with (ndx := nr) (clsr := SPlain); cbn; eauto. left. split; [reflexivity|constructor].
-  - injection Hcn as <- <-. inversion Hns as [? ? e H1 H2 H3 H4|? ? clsr r d0 H1 H2 H3 H4 H5|]; subst.
+  - injection Hcn as <- <-. inversion Hns as [? ? e H1 H2 H3 H4|? ? clsr r d0 H1 H2 H3 H4 H5|? ? rr0 dr0 H1 H2 H3 H4|]; subst.
     + rewrite H2 in Hcl. destruct cls; cbn in Hcl; try contradiction. subst rt'. eapply EV_basic; cbn; eauto.
     + eapply EV_router with (ndx := nd) (clsr := clsr); cbn; eauto.
       rewrite H2 in Hcl. destruct cls, clsr; cbn in Hcl; try contradiction; subst;
         try (left; split; [reflexivity|constructor]); try (right; left; split; reflexivity); right; right; split; reflexivity.
+    + rewrite H2 in Hcl. destruct cls; cbn in Hcl; try contradiction. subst rt'. eapply EV_random; cbn; eauto.
 Qed.
 
 Lemma sw_upd_cat_head p f r c rest :
@@ -211,7 +236,18 @@ Proof.
   assert (Hra : row_args c = ref_args c) by apply Hcok.
   destruct (exit_view_of phi sr sc g k cls n k1 ks rt Hsim Hg Hgc Hk) as (c0 & Hc0 & -> & -> & Hv).
   unfold row_add_exit in Hcomp. rewrite row_exit_router in Hcomp.
-  destruct Hv as [nd e Ho Hnd Hb Hdec Hact Hcont -> ->|ndx clsr r d0 Hndx Hb Hdec Hds Hsh Hcl].
+  destruct Hv as [nd e Ho Hnd Hb Hdec Hact Hcont -> ->|nd r d0 Ho Hnd Hb Hdec Hrs -> ->|ndx clsr r d0 Hndx Hb Hdec Hds Hsh Hcl].
+  2:{ (* ---- the node of a split_random row: every edge is a bucket *)
+    assert (Er : router_idx c0 = fst c0) by (unfold router_idx; rewrite Ho; reflexivity).
+    rewrite Er, Hnd, Hb in Hcomp. cbn [apply_row_edge] in Href. rewrite Hdec in Href. injection Href as <-.
+    rewrite andb_false_r in Hcomp.
+    destruct (rr_add_choice fresh (cs_next sc) r _ d) as [[r' n1]|x] eqn:Ea; [|discriminate]. injection Hcomp as <-.
+    exists phi. split; [|split; [apply phi_le_refl|auto]].
+    pose proof (StOK_random fresh GP _ _ _ _ Hst Hnd Hb) as Hok.
+    assert (Hbn : ~ is_bucket_name (bucket_name c)) by apply Hcok.
+    eapply Sim_rand_update; eauto.
+    assert (Eb : match c_cname c with [] => c_value c | x => x end = bucket_name c) by (unfold bucket_name, or_default; destruct (c_cname c); reflexivity).
+    rewrite Eb. eapply (rand_sim_add_bucket fresh fresh_inj); eauto. }
   - (* ---- the exit node is the basic node of an action row *)
     assert (Er : router_idx c0 = fst c0) by (unfold router_idx; rewrite Ho; reflexivity).
     rewrite Er, Hnd, Hb in Hcomp. cbn [apply_row_edge] in Href. rewrite Hdec in Href.
